@@ -5,32 +5,44 @@
    range as limb sequences, decimals as exact rationals, text as code
    points).  Most events are self-contained; the container events (cnew, cadd,
    crem, cput, chas, cget, ceq) step a model container `cur` the way
-   Seq_Trace steps a list.  An event whose observation differs from the model
+   Seq_Trace steps a list; the history events (hnew, hedit, hrel) step the
+   content `held` of one object that a program edits in place and compares
+   with freshly written values after every edit.  An event whose observation differs from the model
    is reported (@@BAD@@ with its line and the clause) and the run goes on, so
    every mismatch is listed.                                                *)
 EXTENDS Val, TLC, Json, IOUtils
 
 Trace == ndJsonDeserialize(IOEnv.TRACE_FILE)
 
-VARIABLES l, cur
-vars == <<l, cur>>
+VARIABLES l, cur, held
+vars == <<l, cur, held>>
 
 Ev == Trace[l]
 Bad(why) == PrintT("@@BAD@@" \o ToJson([l |-> l, why |-> why]))
 Check(c, why) == IF c THEN TRUE ELSE Bad(why)
 B2N(b) == IF b THEN 1 ELSE 0
 
-Init == l = 1 /\ cur = VSet(<< >>)
+Init == l = 1 /\ cur = VSet(<< >>) /\ held = VList(<< >>)
 
 -----------------------------------------------------------------------------
 (* rel: two values and every relation the implementation reported on them *)
+\* px: what each further observer of the pair answered to "are these two the
+\* same value?" - the interpreted operators and natives (==, !=, equals,
+\* not_equals), membership in a list / a set / the keys of a map in both
+\* directions, find, container == of lists, sets, maps (as key and as value),
+\* the size of << x, y >> and of << x, 'zz77' >> - << y >>, ... (the harness
+\* normalises every answer to a boolean; the list may be empty).  Whatever
+\* `==` answered, all of them must answer the same: that IS interchangeability.
+Agree(px, eq) == \A k \in DOMAIN px : px[k] = eq
 RelOK ==
   LET x == Ev.a  y == Ev.b  e == Equal(x, y) IN
   /\ Check(WF(x) /\ WF(y), "wf")
-  /\ Check(Ev.eq = e, "eq")                                   \* C06
-  /\ Check(Ev.ne = ~e, "ne")
-  /\ Check(e => Ev.hq, "hash")                                \* equal => same hash
-  /\ Check(~SameKind(x, y) => ~e, "cross-kind")
+  \* a pair that differs only below the second of a date: not named by C06
+  /\ Check(Ev.eq = e \/ ResolutionOnly(x, y), "eq")           \* C06
+  /\ Check(Ev.ne = ~Ev.eq, "ne")
+  /\ Check((e \/ Ev.eq) => Ev.hq, "hash")                     \* equal => same hash
+  /\ Check(Agree(Ev.px, Ev.eq), "interchangeable")
+  /\ Check(~SameKind(x, y) => ~Ev.eq, "cross-kind")
   /\ Ev.ord /\ Stated(x, y) =>                 \* C07: one kind, order named by the statement
        /\ Check(B2N(Ev.lt) + B2N(Ev.eq) + B2N(Ev.gt) = 1, "trichotomy")
        /\ Check(Ev.le = (Ev.lt \/ Ev.eq), "le")
@@ -55,6 +67,32 @@ TriOK ==
        /\ Check(~(Ev.ab /\ Ev.ba), "asymmetric")
        /\ Check(Ev.ab = Less(Ev.a, Ev.b) /\ Ev.bc = Less(Ev.b, Ev.c)
                 /\ Ev.ac = Less(Ev.a, Ev.c) /\ Ev.ba = Less(Ev.b, Ev.a), "lt")
+
+(* hnew / hedit / hrel: one object with a history.  hedit carries the edit the
+   program performed (path, op) and the content the object had afterwards as
+   the harness read it off the object (cur); held follows the implementation
+   (re-synchronised) after the model's own effect was compared with it. *)
+HeldStep ==
+  CASE Ev.op = "hnew" ->
+         /\ held' = Ev.v
+         /\ Check(WF(Ev.v), "wf")
+    [] Ev.op = "hedit" ->
+         LET op == EOp(Ev.name, Ev.i, Ev.e, Ev.x)
+             can == PathOK(held, Ev.path) /\ EditOK(SubAt(held, Ev.path), op) IN
+         /\ held' = Ev.cur
+         /\ Check(WF(Ev.cur) /\ WF(Ev.e) /\ WF(Ev.x), "wf")
+         /\ Check(can = Ev.okk, "edit-enabled")
+         /\ can /\ Ev.okk => Check(Equal(EditAt(held, Ev.path, op), Ev.cur), "edit-result")
+         /\ ~Ev.okk => Check(Equal(held, Ev.cur), "edit-result")
+    [] Ev.op = "hrel" ->                   \* the edited object against a freshly written value b
+         LET e == Equal(held, Ev.b) IN
+         /\ held' = held
+         /\ Check(WF(Ev.b), "wf")
+         /\ Check(Ev.eq = e, "eq")
+         /\ Check(Ev.ne = ~Ev.eq, "ne")
+         /\ Check(Ev.qe = Ev.eq, "symmetric")
+         /\ Check((e \/ Ev.eq) => Ev.hq, "hash")
+         /\ Check(Agree(Ev.px, Ev.eq), "interchangeable")
 
 (* sort: input, output and the permutation p with out[k] = inp[p[k]] that the
    harness read off the element identities; m: "id" | "key" | "idrev" | "keyrev" *)
@@ -134,13 +172,14 @@ ContStep ==
 Step ==
   /\ l <= Len(Trace)
   /\ l' = l + 1
-  /\ CASE Ev.op = "rel"    -> cur' = cur /\ RelOK
-       [] Ev.op = "tri"    -> cur' = cur /\ TriOK
-       [] Ev.op = "sort"   -> cur' = cur /\ SortOK
-       [] Ev.op = "enum"   -> cur' = cur /\ EnumOK
-       [] Ev.op = "render" -> cur' = cur /\ RenderOK
-       [] Ev.op \in {"cnew", "cadd", "crem", "cput", "chas", "cget", "ceq", "cdiff"} -> ContStep
-       [] OTHER -> cur' = cur /\ Bad("unknown-op")
+  /\ CASE Ev.op = "rel"    -> cur' = cur /\ held' = held /\ RelOK
+       [] Ev.op = "tri"    -> cur' = cur /\ held' = held /\ TriOK
+       [] Ev.op = "sort"   -> cur' = cur /\ held' = held /\ SortOK
+       [] Ev.op = "enum"   -> cur' = cur /\ held' = held /\ EnumOK
+       [] Ev.op = "render" -> cur' = cur /\ held' = held /\ RenderOK
+       [] Ev.op \in {"cnew", "cadd", "crem", "cput", "chas", "cget", "ceq", "cdiff"} -> held' = held /\ ContStep
+       [] Ev.op \in {"hnew", "hedit", "hrel"} -> cur' = cur /\ HeldStep
+       [] OTHER -> cur' = cur /\ held' = held /\ Bad("unknown-op")
   /\ (l = Len(Trace) => PrintT("@@DONE@@" \o ToJson([n |-> l])))
 
 Spec == Init /\ [][Step]_vars
